@@ -218,6 +218,22 @@ CLAIMS = {
          "NaN payloads and NaN->int are unconstrained.  mmx has no float rules.",
     technique="TLA+ executable float semantics (OrcFloat) evaluated by TLC on traces of emulation, native code and "
               "compiled generated C, with a spec-checked host-IEEE oracle for the rounded core"),
+ "C10": dict(
+    text="Abi.tla gives the effect of push/pop, register writes, stmxcsr/ldmxcsr and the moves that carry the saved "
+         "MXCSR through executor slots and registers, MMX instructions, emms and ret on the state a caller relies on; "
+         "AbiGen.tla, the disciplined prologue/body/epilogue generator over it, is model-checked for every set of used "
+         "callee-saved registers, float or not, MMX or not (ReturnsPreserved; the slot-mix-up deviation the code had is "
+         "kept as a constant and violates it).  Conformance: (1) every listing the library returns for the corpus "
+         "(test.orc, orcfunctions.orc, examples) and 50+ generated many-array / float / 2-D / accumulator / resampling "
+         "programs on sse, avx, mmx is tokenised and replayed through Abi's actions, Preserved must hold at ret; (2) every "
+         "program is called through an assembly trampoline that seeds rbx, rbp, r12-r15 and five MXCSR settings, lays "
+         "pattern words on the caller's stack, and records registers, rsp, DF, MXCSR, x87 tag word; TLC checks each Call "
+         "event (Trace_Abi).",
+    design_ref="DESIGN.md section 6 C10",
+    note="x86-64 System V only (32-bit and Windows conventions cannot be executed here); the executor structure may be "
+         "written (the property exempts it); listing replay is a linear scan.",
+    technique="TLA+ model of the calling-convention state (Abi/AbiGen) checked by TLC; TLC trace validation of "
+              "tokenised listings and of trampoline-recorded machine state"),
  "C01": dict(
     text="Native code is judged against the reference semantics directly (so native = emulation follows and a shared "
          "error would still be caught).  (1) One-opcode programs for every integer opcode compiled for avx, sse and "
